@@ -150,6 +150,15 @@ fn check_case(exe: &Path, root: &Path, k: usize, files: &[(&str, &str)], severit
         let got = match fmt { 0 => parse_json(&out), 1 => parse_compact(&out), _ => parse_pretty(&out, &dir) };
         let got = match got { Ok(g) => g, Err(e) => return Some(format!("rva lint {flags:?}: {e} ({what})")) };
         let want = if all { &lib } else { &base_only };
+        // the text printers say how many diagnostics they leave out
+        if fmt != 0 {
+            let hidden = if all { 0 } else { lib.len() - base_only.len() };
+            let notice = out.lines().find(|l| l.contains("found in other files"));
+            let said = notice.and_then(|l| l.split_whitespace().next()).and_then(|x| x.parse::<usize>().ok());
+            if (hidden == 0 && notice.is_some()) || (hidden > 0 && said != Some(hidden)) {
+                return Some(format!("rva lint {flags:?}: {hidden} diagnostic(s) are in other files, the output says {said:?} ({what})"));
+            }
+        }
         // the order between files is not fixed (files are identified by random ids); within a file it is
         let per_file = |v: &[Diag]| -> Vec<(String, Vec<Diag>)> { let mut names: Vec<String> = v.iter().map(|d| d.file.clone()).collect(); names.sort(); names.dedup();
             names.into_iter().map(|f| { let ds = v.iter().filter(|d| d.file == f).cloned().collect(); (f, ds) }).collect() };
@@ -166,6 +175,10 @@ fn check_case(exe: &Path, root: &Path, k: usize, files: &[(&str, &str)], severit
 fn cases() -> Vec<Vec<(&'static str, &'static str)>> {
     let filler = "    addi t0, t0, 1\n    addi t0, t0, 1\n    addi t0, t0, 1\n    addi t0, t0, 1\n    addi t0, t0, 1\n    addi t0, t0, 1\n    addi t0, t0, 1\n";
     let long: &'static str = Box::leak(format!("main:\n    li t0, 0\n{filler}    foo a0\n    mv a0, t0\n{filler}{filler}{filler}{filler}{filler}{filler}{filler}{filler}{filler}{filler}{filler}{filler}{filler}    bar a1\n    li a7, 10\n    ecall\n").into_boxed_str());
+    let bad = "    foo a0\n    bar a1\n    addi t0, t0\n    baz\n    li t5, 1\n    qux a2\n    li t6, 2\n    add a0, a0\n";
+    let many_main: &'static str = Box::leak(format!("main:\n{bad}{bad}    jal ra, helper\n    jal ra, helper2\n{bad}    li a7, 10\n    ecall\n.include \"lib.s\"\n.include \"lib2.s\"\n").into_boxed_str());
+    let many_lib: &'static str = Box::leak(format!("helper:\n{bad}{bad}{bad}    ret\n").into_boxed_str());
+    let many_lib2: &'static str = Box::leak(format!("helper2:\n{bad}{bad}    ret\n").into_boxed_str());
     vec![
         vec![("main.s", "main:\n    li a0, 1\n    li a7, 10\n    ecall\n")],
         vec![("main.s", "main:\n    li t0, 5\n    add a0, t1, t2\n    jal ra, g\n    add a0, a0, t1\n    li a7, 10\n    ecall\ng:\n    li s1, 3\n    add a0, a0, s0\n    ret\n")],
@@ -184,6 +197,10 @@ fn cases() -> Vec<Vec<(&'static str, &'static str)>> {
         vec![("main.s", "    li t0, 1\nmain:\n    addi x0, t0, 1\n    li a7, 10\n    ecall\n    li t1, 2\n")],
         vec![("main.s", "main:\n    j nowhere\n    j elsewhere\n    j third\n    li a7, 10\n    ecall\n")],
         vec![("main.s", "main:\n    addi a0, a0, foo:\n    li a7, 10\n    ecall\n")],
+        // a name beyond the basic multilingual plane inside a title
+        vec![("main.s", "main:\n    .include \"missing \u{1d11e} \u{1f3b5}.s\"\n    li a7, 10\n    ecall\n")],
+        // more than twenty diagnostics spread over three files
+        vec![("main.s", many_main), ("lib.s", many_lib), ("lib2.s", many_lib2)],
         // include graphs: a file that includes itself, a cycle of two files, undefined labels in two files
         vec![("main.s", ".include \"main.s\"\nmain:\n    li a7, 10\n    ecall\n")],
         vec![("main.s", ".include \"lib.s\"\nmain:\n    li a7, 10\n    ecall\n"), ("lib.s", ".include \"main.s\"\nhelper:\n    ret\n")],
